@@ -8,7 +8,20 @@
       filt   char_confidences.greedy_filtration(softmax of line n, chars)[0]  (the greedy text behind the per-character confidences)
    Texts are recorded as class indices through the inverse character table (an unknown character is 99).
    Accepted iff every text of every line equals Collapse(paths[n]) - the definition in the statement; Greedy.tla proves
-   that the scan and the vectorised algorithm both equal it.  verdict = 0 or the number of the first failing clause.   *)
+   that the scan and the vectorised algorithm both equal it.  verdict = 0 or the number of the first failing clause.
+
+   kind = "batch"  a batch of the bounded space TLC explores (above).  The same long-lived objects (one character-table list
+           edited in place, one GreedyDecoder per alphabet, one engine) serve many cases of a process, and some cases are
+           preceded - on those very objects - by a decode of another small batch with another alphabet and by calls that fail
+           (a character table that is too short, unnormalised log-probabilities, a network that raises): what is recorded
+           is the LAST call, and the statement pins it whatever was decoded (or went wrong) before.
+   kind = "wide"   a score tensor of a size TLC cannot enumerate: more than 255 / 1024 / 4096 / 32767 / 65535 frames or
+           classes.  The arg-max path of line i is recorded run-length encoded: run k is the symbol syms[i][k] on the frames
+           ends[i][k-1]+1 .. ends[i][k] (ends[i][0] = 0, last end = T); the driver expands the runs, renders the tensor and
+           runs the same real functions.  Nothing is precomputed in Python: TLC derives the expected text from the runs,
+           WideCollapse(syms[i]) - the collapse of a path equals the collapse of its sequence of run symbols because every
+           run is non-empty (WellFormedWide, asserted) - written without recursion so that tens of thousands of runs can be
+           evaluated, and tied to the recursive definition Collapse of Greedy.tla by the ASSUME below.                    *)
 EXTENDS Greedy, TraceKit
 VARIABLES tid, verdict
 
@@ -17,15 +30,47 @@ NL == Len(Tr.paths)
 TextsOK(x) == /\ DOMAIN x = 1..NL
               /\ \A i \in 1..NL : x[i] = Collapse(Tr.paths[i])
 
-Judge == IF Tr.outcome # "ok" THEN 1
-         ELSE IF ~TextsOK(Tr.eng) THEN 2
-         ELSE IF ~TextsOK(Tr.alone) THEN 3
-         ELSE IF ~TextsOK(Tr.ocr) THEN 4
-         ELSE IF ~TextsOK(Tr.filt) THEN 5
-         ELSE 0
+\* ---------------------------------------------------------------- kind = "wide" (scale)
+\* Collapse without recursion: keep position i iff its symbol is not the blank and differs from its left neighbour
+WideCollapse(s) ==
+  LET kept == SelectSeq([i \in 1..Len(s) |-> i], LAMBDA i : s[i] # Blank /\ (i = 1 \/ s[i - 1] # s[i]))
+  IN  [j \in 1..Len(kept) |-> s[kept[j]]]
+\* the two formulations of the definition agree (every sequence of up to 5 symbols over two classes and the blank)
+ASSUME \A len \in 0..5 : \A p \in [1..len -> {0, 1, Blank}] : WideCollapse(p) = Collapse(p)
+\* and expanding runs does not change the collapse (every run-length encoding with up to 3 runs of 1..3 frames)
+Expand(s, e) == [f \in 1..e[Len(e)] |-> s[CHOOSE k \in 1..Len(e) : f <= e[k] /\ (k = 1 \/ f > e[k - 1])]]
+ASSUME \A len \in 1..3 : \A s \in [1..len -> {0, 1, Blank}] : \A d \in [1..len -> 1..3] :
+          LET e == [k \in 1..len |-> IF k = 1 THEN d[1] ELSE IF k = 2 THEN d[1] + d[2] ELSE d[1] + d[2] + d[3]]
+          IN  Collapse(Expand(s, e)) = WideCollapse(s)
+
+WellFormedWide ==
+  /\ Tr.nc = C /\ DOMAIN Tr.syms = 1..Len(Tr.syms) /\ DOMAIN Tr.ends = 1..Len(Tr.syms) /\ Len(Tr.syms) >= 1
+  /\ \A i \in 1..Len(Tr.syms) :
+        LET s == Tr.syms[i]
+            e == Tr.ends[i]
+        IN  /\ Len(s) >= 1 /\ Len(e) = Len(s) /\ e[Len(e)] = Tr.T
+            /\ \A k \in 1..Len(s) : s[k] \in 0..(C - 1) /\ e[k] > (IF k = 1 THEN 0 ELSE e[k - 1])
+WideOK(x) == /\ DOMAIN x = 1..Len(Tr.syms)
+             /\ \A i \in 1..Len(Tr.syms) : x[i] = WideCollapse(Tr.syms[i])
+JudgeWide == IF ~Assert(WellFormedWide, <<"malformed wide trace (driver error)", tid>>) THEN 1
+             ELSE IF Tr.outcome # "ok" THEN 1
+             ELSE IF ~WideOK(Tr.eng) THEN 2
+             ELSE IF ~WideOK(Tr.alone) THEN 3
+             ELSE IF ~WideOK(Tr.ocr) THEN 4
+             ELSE IF ~WideOK(Tr.filt) THEN 5
+             ELSE 0
+
+\* ---------------------------------------------------------------- kind = "batch"
+JudgeBatch == IF Tr.outcome # "ok" THEN 1
+              ELSE IF ~TextsOK(Tr.eng) THEN 2
+              ELSE IF ~TextsOK(Tr.alone) THEN 3
+              ELSE IF ~TextsOK(Tr.ocr) THEN 4
+              ELSE IF ~TextsOK(Tr.filt) THEN 5
+              ELSE 0
+Judge == IF Tr.kind = "wide" THEN JudgeWide ELSE JudgeBatch
 
 TInit == /\ tid \in 1..NTraces
-         /\ paths = Traces[tid].paths
+         /\ paths = (IF Traces[tid].kind = "wide" THEN <<>> ELSE Traces[tid].paths)
          /\ n = 1 /\ t = 0 /\ prev = NoSym /\ cur = <<>> /\ scanout = <<>> /\ vecout = <<>>
          /\ verdict = Judge
 
